@@ -543,7 +543,14 @@ func (q *Queue) deliver(meta *QueueMetadata, header textproto.Header, body buffe
 
 	if err := delivery.Commit(bodyCtx); err != nil {
 		dl.Debugf("delivery.Commit failed: %v", err)
-		expandToPartialErr(err)
+		// Keep statuses already reported for individual recipients, a
+		// permanently failed recipient should not be retried because of
+		// a temporary Commit failure.
+		for _, rcpt := range acceptedRcpts {
+			if perr.Errs[rcpt] == nil {
+				perr.Errs[rcpt] = err
+			}
+		}
 	}
 	dl.Debugf("delivery.Commit OK")
 
